@@ -37,11 +37,15 @@ PY
 )"
 mkdir -p "$W/$PKG"
 for f in "$SRC"/*_test.go; do [ -f "$f" ] && cp "$f" "$W/$PKG/"; done
+# demo files stored mirrored below the output directory (os/seed_demo_test.go ...) go to the same relative path
+MIRRORED="$(cd "$SRC" && find . -mindepth 2 -name '*_test.go' | sed 's|^\./||')"
+for rel in $MIRRORED; do mkdir -p "$W/$(dirname "$rel")"; cp "$SRC/$rel" "$W/$rel"; done
 run_demo() { (cd "$W" && eval "$DEMO_CMD") > "$W/.demo.out" 2>&1; }
 run_demo; base=$?
 git -C "$W" apply "$SRC/patch.diff" 2>"$W/.apply.err" || { echo "SEED $P/$K: PATCH-DOES-NOT-APPLY $(head -1 $W/.apply.err)"; exit 2; }
 run_demo; mut=$?
 rm -f "$W"/$PKG/seed_demo*_test.go "$W"/$PKG/*seed*_test.go
+for rel in $MIRRORED; do rm -f "$W/$rel"; done
 (cd "$W" && go build ./... && go test -vet=off -count=1 ./... > "$W/.suite.out" 2>&1); suite=$?
 res=""
 for c in $CHECKS; do
